@@ -8,13 +8,15 @@ META = {
     "level": "proof",
     "level_text": "Theorems in props/C05.v over the model of Channel.send/recv and the stream read/write loops: for every packet sequence, either compression "
                   "setting on either side, every split of writes and reads and every interleaving of timeouts/would-blocks the receiver gets exactly the packets sent; "
-                  "for every cut point or transport error it gets an exact prefix of whole packets and the stream is closed; under ANY write behaviour (partial sends, "
+                  "for every cut point or transport error it gets an exact prefix of whole packets (that the stream is then CLOSED and every later recv/send fails with "
+                  "EOFError at once is not in the model - failure there is just an outcome - and is checked on the real classes by the harness); under ANY write behaviour (partial sends, "
                   "failure after any byte) the wire holds a prefix of the frame - all of it exactly when send returned - and a reader of that wire gets whole leading "
                   "packets only (c05_writer_any_transport, c05_writer_fault_seen_by_reader). zlib is a section variable with "
                   "decompress(compress x) = x. Threshold/chunk/header/flusher, the comparison operators and the pipe-tolerance fact are regenerated from channel.py/stream.py/consts.py; the read/write/send/recv loops themselves are hand-written in the model and pinned to the source by text snapshots of every method of both stream classes, Stream, Channel and compat.get_exc_errno (any edit breaks the tie) plus the differential run; the "
                   "extracted model is compared with the real classes over scripted fake sockets and pipes.",
     "level_note": "Trusted: Coq kernel, pygen, extraction+driver, harness fakes (FakeSock, fake os.read/os.write); zlib round-trip is an explicit hypothesis; kernel "
-                  "buffering/select/poll and Win32 pipes are outside the model; a write timeout is fatal by design (property only promises tolerance while reading); tolerance of would-block on PIPES is the generated fact PipeStream_read_tolerates_wouldblock (F45: fixed).",
+                  "buffering/select/poll and Win32 pipes are outside the model; so are ASYNCHRONOUS exceptions raised inside a read (KeyboardInterrupt / a signal handler's "
+                  "exception after part of a frame was consumed leaves the stream open and desynchronised: not a transport event of the quantifier); a write timeout is fatal by design (property only promises tolerance while reading); tolerance of would-block on PIPES is the generated fact PipeStream_read_tolerates_wouldblock (F45: fixed).",
     "technique": "Coq proof by induction over packets and transport-oracle events; regenerated parameters; differential correspondence over fake transports",
     "gen": ["consts", "channel", "stream"],
     "shapes": ["channel.*", "stream.*"],
@@ -206,9 +208,24 @@ def impl_recvall(kind, revs, wire, limit=10**6, cmp_r=True):
                 end = "ZlibError"; break
             except Exception as e:
                 end = C.exc_enum(e); break
+        # after the end: the channel reports closed, and every further recv / send fails with EOFError at once, touching nothing
+        if end == "EOFError":
+            consumed = len(fs.avail) if hasattr(fs, "avail") else None
+            again = []
+            for op in (lambda: ch.recv(), lambda: ch.send(b"late"), lambda: ch.recv()):
+                try:
+                    op(); again.append("returned")
+                except EOFError:
+                    again.append("EOFError")
+                except Exception as e:
+                    again.append(C.exc_enum(e))
+            AFTER_END.append((again, bool(ch.closed), consumed == (len(fs.avail) if hasattr(fs, "avail") else None)))
     finally:
         chmod.zlib, stmod.os = old_z, old_os
     return got, end, st.closed, spy
+
+
+AFTER_END = []
 
 
 def tbl(d):
@@ -271,6 +288,12 @@ def run_cases(ctx, model, cases):
                 ctx.violation("recv-ends-with-%s:%s" % (end, rk), cs, observed=end, expected="EOFError at end of stream", what="stream end/failure did not surface as EOFError")
             if not rclosed:
                 ctx.violation("recv-eof-but-stream-open:" + rk, cs, observed="open", expected="closed", what="EOFError raised but stream left open")
+            if AFTER_END:
+                again, chclosed, untouched = AFTER_END.pop()
+                del AFTER_END[:]
+                if again != ["EOFError"] * 3 or not chclosed or not untouched:
+                    ctx.violation("use-after-end-not-EOFError:" + rk, cs, observed={"recv/send/recv": again, "channel.closed": chclosed, "transport untouched": untouched},
+                                  expected="EOFError three times, closed, nothing read or written", what="after the stream ended a further recv/send did not fail with EOFError at once")
             if got != pkts[:len(got)]:
                 ctx.violation("recv-altered-packet:" + rk, cs, observed=[len(g) for g in got], expected=[len(p) for p in pkts],
                               what="a received packet differs from the one sent at that position (shortened, padded, merged or corrupted)")
